@@ -38,6 +38,6 @@ try:
         meta.setdefault("history", []).append({"verif_commit_before": old.get("verif_commit", "0c4a499 or earlier"), "detected_by": prev})
 except FileNotFoundError:
     pass
-meta["verif_commit"] = subprocess.run(["git", "-C", "/verif", "rev-parse", "--short", "HEAD"], capture_output=True, text=True).stdout.strip()
+meta["verif_commit"] = os.environ.get("ISO_VERIF_REV") or subprocess.run(["git", "-C", "/verif", "rev-parse", "--short", "HEAD"], capture_output=True, text=True).stdout.strip()
 json.dump(meta, open(d + "/meta.json", "w"), indent=1)
 print("KEPT", name, "detected_by", meta["detected_by"])
